@@ -1,0 +1,125 @@
+//go:build verif
+
+package lscq
+
+// Read-only accessors for the verification harness (/verif, property C05).
+// Nothing here is compiled without the build tag `verif`.
+
+import (
+	"sync/atomic"
+	"unsafe"
+)
+
+// VerifSCQSize and VerifEntriesPerLine are the constants of util.go that the Coq model carries.
+const (
+	VerifSCQSize        = uint64(scqsize)
+	VerifEntriesPerLine = uint64(lscqcacheLineSize / 2)
+)
+
+// VerifCacheRemap exposes cacheRemap16Byte.
+func VerifCacheRemap(i uint64) uint64 { return cacheRemap16Byte(i) }
+
+// VerifRing is the cursor state of one ring.
+type VerifRing struct {
+	Head, Tail uint64 // Tail without the closed bit
+	Closed     bool
+	Threshold  int64
+}
+
+// VerifSnap: number of rings reachable from q.head, cursors of the first and the last of them.
+type VerifSnap struct {
+	Segments    int
+	First, Last VerifRing
+}
+
+// VerifEntry is one ring slot.
+type VerifEntry struct {
+	Safe, Empty bool
+	Cycle       uint64
+}
+
+func verifRing(head, tail *uint64, thr *int64) VerifRing {
+	t := atomic.LoadUint64(tail)
+	return VerifRing{Head: atomic.LoadUint64(head), Tail: uint64Get63(t), Closed: uint64Get1(t), Threshold: atomic.LoadInt64(thr)}
+}
+
+func (q *PointerQueue) VerifSnap() VerifSnap {
+	first := (*pointerSCQ)(atomic.LoadPointer((*unsafe.Pointer)(unsafe.Pointer(&q.head))))
+	last, n := first, 1
+	for {
+		nx := (*pointerSCQ)(atomic.LoadPointer((*unsafe.Pointer)(unsafe.Pointer(&last.next))))
+		if nx == nil {
+			break
+		}
+		last = nx
+		n++
+	}
+	return VerifSnap{Segments: n, First: verifRing(&first.head, &first.tail, &first.threshold), Last: verifRing(&last.head, &last.tail, &last.threshold)}
+}
+
+// VerifEntry reads slot idx (an index into the ring array, i.e. after cacheRemap) of the first or last ring.
+func (q *PointerQueue) VerifEntry(last bool, idx uint64) (VerifEntry, unsafe.Pointer) {
+	r := (*pointerSCQ)(atomic.LoadPointer((*unsafe.Pointer)(unsafe.Pointer(&q.head))))
+	if last {
+		for {
+			nx := (*pointerSCQ)(atomic.LoadPointer((*unsafe.Pointer)(unsafe.Pointer(&r.next))))
+			if nx == nil {
+				break
+			}
+			r = nx
+		}
+	}
+	ent := loadSCQNodePointer(unsafe.Pointer(&r.ring[idx]))
+	s, e, c := loadSCQFlags(ent.flags)
+	return VerifEntry{Safe: s, Empty: e, Cycle: c}, ent.data
+}
+
+func (q *Uint64Queue) VerifSnap() VerifSnap {
+	first := (*uint64SCQ)(atomic.LoadPointer((*unsafe.Pointer)(unsafe.Pointer(&q.head))))
+	last, n := first, 1
+	for {
+		nx := (*uint64SCQ)(atomic.LoadPointer((*unsafe.Pointer)(unsafe.Pointer(&last.next))))
+		if nx == nil {
+			break
+		}
+		last = nx
+		n++
+	}
+	return VerifSnap{Segments: n, First: verifRing(&first.head, &first.tail, &first.threshold), Last: verifRing(&last.head, &last.tail, &last.threshold)}
+}
+
+func (q *Uint64Queue) VerifEntry(last bool, idx uint64) (VerifEntry, uint64) {
+	r := (*uint64SCQ)(atomic.LoadPointer((*unsafe.Pointer)(unsafe.Pointer(&q.head))))
+	if last {
+		for {
+			nx := (*uint64SCQ)(atomic.LoadPointer((*unsafe.Pointer)(unsafe.Pointer(&r.next))))
+			if nx == nil {
+				break
+			}
+			r = nx
+		}
+	}
+	ent := loadSCQNodeUint64(unsafe.Pointer(&r.ring[idx]))
+	s, e, c := loadSCQFlags(ent.flags)
+	return VerifEntry{Safe: s, Empty: e, Cycle: c}, ent.data
+}
+
+func (q *Queue[E]) VerifSnap() VerifSnap { return q.q.VerifSnap() }
+
+// VerifEntry of the generic queue: the stored pointer is a *E.
+func (q *Queue[E]) VerifEntry(last bool, idx uint64) (VerifEntry, *E) {
+	e, p := q.q.VerifEntry(last, idx)
+	return e, (*E)(p)
+}
+
+// VerifYieldHook, when set (before any goroutine uses a queue), is called at the marked points:
+// 1 LSCQ.Enqueue before entering the ring, 2 LSCQ.Dequeue before the threshold reset, 3 before the head CAS,
+// 4 SCQ.Enqueue after the tail fetch-add, 5 SCQ.Dequeue after the head fetch-add, 6 fixstate before its CAS,
+// 7 SCQ.Enqueue between the slot CAS and the threshold store.
+var VerifYieldHook func(point int)
+
+func verifYield(k int) {
+	if h := VerifYieldHook; h != nil {
+		h(k)
+	}
+}
